@@ -24,6 +24,47 @@ code -> spec
      enumerated ones, and applications TLC did NOT enumerate (longer strings, larger ints, every golint
      initialism in several spellings) -- is validated by TLC against spec/FuncLibTrace.tla; the values
      for the non-enumerated inputs are computed only there.  A corrupted copy must be rejected (self-test).
+
+COVERAGE TABLE (statement / quantifier clause -> what explores it -> what is still a single point or absent)
+  "every function offered to templates AND templated config values"
+      -> all 44 names of FuncLib!Table: parse-availability in the mock template and in each of dir / filename /
+         pkgname / structname / template-schema; values through the mock template (all tuples), through a config
+         value rotating over structname / pkgname / template-schema (quick: a third of the tuples, thorough: all),
+         through dir and filename (1 / 4 short applications per function, hex-encoded in the value).
+      gap: dir / filename carry only short results (file-name limits); a name ADDED to the map is only noted.
+  "total: a value or a template error, never crashes the run"
+      -> every tuple; error-expected/undefined tuples one per run; 75 adversarial out-of-domain inputs (overflow,
+         20 kB strings, wrong types, NUL, truncated UTF-8, pathological regexps); crash/timeout bisected.
+      gap: inputs > 20 kB, resource exhaustion; a hang is a 600 s timeout.
+  "string functions equal their stdlib namesakes, subject last"
+      -> FuncLib!Std* + Table.subj/rot; alphabets with empty, multi-byte, invalid byte, separators at both ends,
+         look-alike prefixes/suffixes, upper/lower pairs, case-length-changing letters; counts -2..2/3; empty old /
+         empty separator (per-rune explode); n beyond the number of pieces; multi-byte cutsets.
+      gap: strings longer than 3 runes only in the seeded random part of the op log; U+FFFD as an INPUT rune.
+  "arithmetic equals integer arithmetic over all their arguments"
+      -> -3..3 (-4..4), 1..3 args (4 over -2..2), zero divisors, min of nothing; larger values in the op log.
+      left open on purpose: overflow (wrap or error), zero divisor (error or value), non-int arguments.
+      gap: more than 5 arguments; `max` is not in the map (not documented, not checked).
+  "case functions behave as named"
+      -> lower/upper/firstLower/firstUpper exact (title-case first letter: mapped or unchanged, both accepted);
+         camel/snake/kebab: totality + five shape invariants (ShapeOK) incl. f(f(x)) = f(x) for snake/kebab.
+      gap: no exact semantics for camel/snake/kebab (digit/initialism boundaries are free); camelcase idempotence
+         is NOT required (xstrings keeps one of two adjacent separators; separator-only strings grow).
+  "exported ... first letter upper-cased (or the matching initialism)" / "firstIsLower ... lower-case letter"
+      -> every first-rune class: ASCII lower/upper, 2-byte lower/upper, uncased letter, TITLE-case letter,
+         letters whose case mapping changes the UTF-8 length (2->1, 2->3, 3->2, 3->1), digit, underscore, space,
+         combining mark, invalid byte, empty; all 38 golint initialisms in >= 5 spellings + near misses.
+      gap: special-casing that is not in unicode.ToUpper (sharp s, final sigma) is by definition unchanged.
+  "for all ... argument tuples" -- dimensions beyond the tuple itself
+      argument SPELLING (call / pipeline `s | f a` / typed values from printf, len / template variable):
+         drawn per application and route; gap: negative typed ints, typed floats, method results.
+      HISTORY (FuncLibHist.tla): replies are functions of the arguments -- every ordered pair of look-alike
+         applications of one function (thorough: with another function interleaved), every pool application
+         as the FIRST call of a process, every reply re-read after all later calls (reference vs copy).
+         gap: histories across two files / two processes of one run (one output file per run here); histories
+         containing an erroring application (a template error ends the execution, nothing after it is observable).
+      ENVIRONMENT: V set / others unset, `$V ${V} $$ ${} ${`; three-entry file system for readFile.
+         left open: relative readFile paths (cwd vs config dir), randInt distribution.
 """
 import concurrent.futures as cf
 import json
